@@ -162,7 +162,7 @@ def check_info(ctx, info, n_data, rng, pairs):
         try:
             c.keep(s)
         except Exception as exc:
-            ctx.violation('keep:raised', 'keep(%r) raised: %r' % (s, exc), {'chi2': info.chi2, 'selector': s})
+            ctx.raised(exc, 'keep:raised', 'keep(%r) raised: %r' % (s, exc), {'chi2': info.chi2, 'selector': s})
             continue
         kept[s] = c
         # idempotence
@@ -171,7 +171,7 @@ def check_info(ctx, info, n_data, rng, pairs):
             c2 = clone(c)
             c2.keep(s)
         except Exception as exc:
-            ctx.violation('keep:raised', 'second keep(%r) raised: %r' % (s, exc), {'chi2': info.chi2, 'selector': s})
+            ctx.raised(exc, 'keep:raised', 'second keep(%r) raised: %r' % (s, exc), {'chi2': info.chi2, 'selector': s})
             continue
         if len(c2.chi2) != before or not probe.same(c2.model_id, c.model_id):
             ctx.violation('keep:not-idempotent', 'selecting twice differs from selecting once',
